@@ -121,6 +121,7 @@ fn run_multi(c: &MultiCase) -> CaseResult {
     v.label_if(it.model.log.len() >= 2, "two_log_lines");
     v.label_if(it.model.log.iter().any(|l| console::measure_text_width(l) > it.cols), "log_wraps");
     v.label_if(c.hz.is_some() && c.step_ms == 0, "frozen_clock_rate_limited");
+    v.label_if(it.rows <= 8, "terminal_of_at_most_8_rows");
     Ok(v)
 }
 
@@ -163,13 +164,16 @@ fn multi_strategy(tier: Tier) -> BoxedStrategy<MultiCase> {
         8u8..=30,
         proptest::option::weighted(0.7, prop_oneof![Just(1u8), Just(2), Just(20), Just(60), Just(255)]),
         prop_oneof![2 => Just(0u32), 1 => Just(1u32), 1 => Just(20u32), 1 => Just(2000u32)],
+        // a quarter of the cases on a terminal of 1-8 rows: the bars (some wrapping) exceed its height
+        prop_oneof![3 => Just(0u8), 1 => 1u8..=8],
     )
-        .prop_flat_map(move |(rows, cols, hz, step_ms)| (Just((rows, cols, hz, step_ms)), prefix.clone(), proptest::collection::vec(mop_strategy(cols as usize, true), 0..n)))
-        .prop_map(|((rows, cols, hz, step_ms), mut pre, ops)| {
+        .prop_flat_map(move |(rows, cols, hz, step_ms, tiny)| (Just((rows, cols, hz, step_ms, tiny)), prefix.clone(), proptest::collection::vec(mop_strategy(cols as usize, true), 0..n)))
+        .prop_map(|((rows, cols, hz, step_ms, tiny), mut pre, ops)| {
             pre.extend(ops);
-            // C03 keeps every frame within the terminal height by using a tall terminal; the small
-            // `rows` value only shortens it a little so that log lines scroll
-            MultiCase { rows: rows + 40, cols, hz, step_ms, ops: pre, final_drops: vec![] }
+            // most cases keep every frame within the terminal height by using a tall terminal (the small
+            // `rows` value only shortens it a little so that log lines scroll)
+            let rows = if tiny > 0 { tiny } else { rows + 40 };
+            MultiCase { rows, cols, hz, step_ms, ops: pre, final_drops: vec![] }
         })
         .boxed()
 }
